@@ -83,7 +83,7 @@ NA = {
  "C02": "agreement of the three evaluators Id::run / Id::paths / Id::update is a property of the interpreter (see C01); the value-level position primitives updates bottom out in are decided under C10",
  "C04": "stack depth and retained heap as a function of iteration count are not assertions over program states a bounded model checker encodes; the call classification producing them lives in compile.rs (out of reach, see C01)",
  "C06": "absence of system calls over all filters and documents is a whole-program call-graph property including third-party decoders; Kani cannot execute FFI or I/O and nothing in this technique family observes the system-call boundary",
- "C07": "print-then-parse needs core::fmt on the write side (formatting is the subject and cannot be stubbed) and hifijson/Bytes on the read side: the 1-byte to_json -> parse_single probe was undecided at 25 min / 7.6 GB; not claimed (DESIGN.md §4)",
+ "C07": "print-then-parse needs core::fmt on the write side (formatting is the subject and cannot be stubbed) and hifijson/Bytes on the read side: the 1-byte to_json -> parse_single probe was undecided at 25 min / 7.6 GB, and the split through an independent string-grammar model (writer macros alone: timeout 600 s on one symbolic byte; parse_string alone: out of memory at 12 GB on one symbolic byte, 77 s on one concrete byte) does not decide either; not claimed (DESIGN.md §4)",
  "C11": "fold::fold and funs::range run on boxed result streams with Exn; the same shapes (Results / Exn / Vec) did not decide for cmp_by and flat_map_then within 300 s (DESIGN.md §2.3); not claimed",
  "C16": "module loading is file-system calls (canonicalize, read_to_string), a typed arena and the compiler's B-tree maps; no symbolic file system is available",
  "C17": "process-level behaviour (stdout bytes, exit status); Cli::parse is bound to std::env::ArgsOs and cannot be driven symbolically without generalising its type",
